@@ -141,7 +141,7 @@ def validate_batch(spec_dir, module, traces, cfg=None, chunk=None, procs=12, tim
         k, (base, trs) = ix
         f = os.path.join(wd, f"batch{k}.json")
         with open(f, "w") as fh:
-            json.dump(trs, fh)
+            json.dump([{a: b for a, b in t.items() if a != "input"} for t in trs], fh)
         e = {"TRACE_FILE": f}
         if env:
             e.update(env)
